@@ -1,7 +1,31 @@
-/* The one converter behind the libidn adapter in the C14 build: plain libidn2 (the call goes through the runtime's
- * __wrap_idn2_to_ascii_8z like every other call in this link, so it is an event). */
+/* What the libidn / idnkit adapters need from "the simulator" in the C14 build: the one converter (plain libidn2; the
+ * call goes through the runtime's __wrap_idn2_to_ascii_8z like every other call in this link, so it is an event) and
+ * no-op versions of the history simulator's fault / report seams. */
 #define IDN2_SKIP_LIBIDN_COMPAT
 #include <idn2.h>
+#include <stdlib.h>
+#include <string.h>
+#include "../hist/simrt.h"
+
+int g_sim_tag = SIM_TAG_NONE;
+int g_sim_in_free = 0;
+struct sim_conv g_sim_conv;
+int g_sim_nreports = 0;
+char g_sim_report_cls[8][64];
+char g_sim_report_detail[8][160];
+
+void sim_report (const char *cls, const char *detail)
+{
+    if (g_sim_nreports < 8) { strncpy (g_sim_report_cls[g_sim_nreports], cls, 63); strncpy (g_sim_report_detail[g_sim_nreports], detail ? detail : "", 159); }
+    g_sim_nreports++;
+}
+void sim_raw_free (void *p) { free (p); }
+
+int sim_convert_raw (const char *in, char **out, int *fault, int flags)
+{
+    if (fault) *fault = 0;
+    return idn2_to_ascii_8z (in, out, flags < 0 ? IDN2_NONTRANSITIONAL : flags);
+}
 int sim_convert (const char *in, char **out, int flags)
 {
     return idn2_to_ascii_8z (in, out, flags < 0 ? IDN2_NONTRANSITIONAL : flags);
